@@ -6,16 +6,21 @@
  *        A            register one more at-exit callback (numbered 1,2,.. per thread in registration order)
  *        L<j>         launch thread j (must be managed) from inside this thread
  *        P            explicit schedule point
+ *        O<n>         aws_thread_call_once on once-flag n (1..3); the once-function contains a schedule point
+ *        V            the thread's view of itself: id (aws_thread_current_thread_id vs aws_thread_get_id of its own
+ *                     aws_thread and of the main thread), name, aws_thread_current_sleep(1 ms) against the clock
  *   MAIN <op> ...                 ops of the scenario's main thread:
  *        L<i>         launch thread i        J<i>  join (joinable) thread i
  *        JA           aws_thread_join_all_managed, then log the managed-thread count
- *        P            schedule point
+ *        P            schedule point          O<n>  aws_thread_call_once on once-flag n
  *        I            aws_common_library_init() once more (dependent libraries do this; it is documented as idempotent)
  */
 #include "vh_core.h"
 
 #include "vsched/vsched_impl.h"
 
+#include <aws/common/clock.h>
+#include <aws/common/string.h>
 #include <aws/common/thread.h>
 
 #define MAXTH 10
@@ -39,6 +44,34 @@ struct cbarg {
 static struct cbarg cbargs[MAXTH][MAXOPS];
 
 static void launch(int j);
+
+/* once-flags: re-armed for every execution (each execution is a process of its own, forked before the scenario runs) */
+#define NONCE 3
+static aws_thread_once once_flags[NONCE + 1];
+static int once_tag[NONCE + 1];
+static aws_thread_id_t main_id;
+static void once_fn(void *ud) {
+    int n = (int)((int *)ud - once_tag);
+    vh_begin("OnceRan");
+    vh_int("n", n);
+    vh_int("argok", n >= 1 && n <= NONCE && ud == &once_tag[n]);
+    vh_int("on", vs_self());
+    vh_end();
+    vs_point(); /* other threads may call in while the function is still running */
+    vh_begin("OnceEnd");
+    vh_int("n", n);
+    vh_end();
+}
+static void do_once(int n) {
+    if (n < 1 || n > NONCE) {
+        return;
+    }
+    aws_thread_call_once(&once_flags[n], once_fn, &once_tag[n]);
+    vh_begin("OnceRet");
+    vh_int("n", n);
+    vh_int("on", vs_self());
+    vh_end();
+}
 
 static void at_exit_cb(void *ud) {
     struct cbarg *a = ud;
@@ -72,6 +105,25 @@ static void thread_fn(void *arg) {
             launch(atoi(op + 1));
         } else if (op[0] == 'P') {
             vs_point();
+        } else if (op[0] == 'O') {
+            do_once(atoi(op + 1));
+        } else if (op[0] == 'V') {
+            aws_thread_id_t me = aws_thread_current_thread_id();
+            struct aws_string *nm = NULL;
+            int nrc = aws_thread_current_name(vh_alloc(), &nm);
+            uint64_t t0 = 0, t1 = 0;
+            aws_high_res_clock_get_ticks(&t0);
+            aws_thread_current_sleep(1000000);
+            aws_high_res_clock_get_ticks(&t1);
+            vh_begin("SelfView");
+            vh_int("thr", d->id);
+            vh_int("ideq", aws_thread_thread_id_equal(me, aws_thread_get_id(&d->thread)));
+            vh_int("idmain", aws_thread_thread_id_equal(me, main_id));
+            vh_int("named", d->named);
+            vh_int("nameok", nrc == 0 && nm != NULL && aws_string_eq_c_str(nm, "verif-thread"));
+            vh_int("sleptok", t1 - t0 >= 1000000);
+            vh_end();
+            aws_string_destroy(nm);
         }
     }
     vh_begin("FnEnd");
@@ -127,6 +179,13 @@ static void scenario(char **lines, int nlines) {
         }
         free(dup);
     }
+    {
+        aws_thread_once fresh = AWS_THREAD_ONCE_STATIC_INIT;
+        for (int n = 0; n <= NONCE; ++n) {
+            once_flags[n] = fresh;
+        }
+    }
+    main_id = aws_thread_current_thread_id();
     vh_begin("Setup");
     vh_int("main", vs_self());
     vh_end();
@@ -153,6 +212,8 @@ static void scenario(char **lines, int nlines) {
             aws_thread_clean_up(&T[j].thread);
         } else if (op[0] == 'P') {
             vs_point();
+        } else if (op[0] == 'O') {
+            do_once(atoi(op + 1));
         } else if (op[0] == 'I') {
             aws_common_library_init(aws_default_allocator());
             vh_begin("ReInit");
